@@ -23,9 +23,9 @@
 (*  M  MECHANISM.  What the implementation is meant to compute:            *)
 (*     NormalForm(v)  - the value up to Value::eq (the sign of a float     *)
 (*                      zero is not observable): parse + Value::eq;        *)
-(*     CoarseForm(v)  - what compare_recon_values can tell apart (it does  *)
-(*                      not see where a nested attribute-less record       *)
-(*                      starts among the items before it);                 *)
+(*     LeftShifts(v)  - the values compare_recon_values confuses with v    *)
+(*                      (it does not see where a nested attribute-less     *)
+(*                      record starts among the items before it);          *)
 (*     HashEvents(v, style) - the event stream HashParser feeds to the     *)
 (*                      hasher: numbers normalised (one key per number),   *)
 (*                      floats by bit pattern, and StartBody / EndRecord   *)
@@ -336,25 +336,27 @@ Skeleton(x) == SelectSeq(NF(x), LAMBDA e : e \notin {"SB", "ER", "IT"})
 HashEvents(x, st) == RE(x, st, <<>>).ev
 Undetected(x, st) == RE(x, st, <<>>).und
 
-(* M. what the comparator can tell apart.  ValueValidator compares, frame by frame, only the SIZES of the item      *)
-(* collections, adding up nested frames that have no key (comparator/mod.rs, PartialEq for ValueValidator), so it    *)
-(* cannot see WHERE a nested record without attributes begins among the items that precede it: { x, {y} } and        *)
-(* { {x, y} } are the same to it.  CoarseForm moves the opening of every such nested record to the far left.        *)
-RECURSIVE Coarse(_)
-RECURSIVE Absorb(_, _, _)
-\* items k.. of a list of (already coarse) items; acc = what is left of the items before k
-Absorb(is, k, acc) ==
-    IF k > Len(is) THEN acc
-    ELSE LET it == is[k] IN
-         IF ~it.slot /\ IsRec(it.val) /\ it.val.attrs = <<>> /\ it.val.items # <<>> /\ acc # <<>>
-           THEN Absorb(is, k + 1, <<VItem(Rec(<<>>, Absorb(acc \o it.val.items, 1, <<>>)))>>)
-           ELSE Absorb(is, k + 1, Append(acc, it))
-CoarseItem(i) == IF i.slot THEN SItem(Coarse(i.key), Coarse(i.val)) ELSE VItem(Coarse(i.val))
-Coarse(x) ==
-    CASE x.t = "rec" -> Rec([k \in 1..Len(x.attrs) |-> Attr(x.attrs[k].name, Coarse(x.attrs[k].body))],
-                            Absorb([k \in 1..Len(x.items) |-> CoarseItem(x.items[k])], 1, <<>>))
-      [] OTHER -> x
-CoarseForm(x) == NF(Coarse(x))
+(* M. what the comparator cannot tell apart.  incremental_compare skips a StartBody that only one side has, and      *)
+(* ValueValidator's equality then compares, frame by frame, only the SIZES of the item collections, adding up nested *)
+(* frames that have no key (comparator/mod.rs, PartialEq for ValueValidator).  So it cannot see WHERE a nested       *)
+(* record without attributes begins among the items that precede its content: { x, {y} } and { {x, y} } are the same *)
+(* to it.  LeftShifts(x) = the values obtained from x by moving the opening of ONE such nested record (a value item, *)
+(* no attributes, not empty) to the left across one or more whole items, anywhere in x.  The relation is not         *)
+(* transitive ({a,{1},{1}} ~ {{a,1},{1}} and ~ {a,{{1},1}}, but these two are told apart).                           *)
+Absorbing(it) == ~it.slot /\ IsRec(it.val) /\ it.val.attrs = <<>> /\ it.val.items # <<>>
+TopShifts(x) ==
+    {Rec(x.attrs, SubSeq(x.items, 1, s - 1) \o <<VItem(Rec(<<>>, SubSeq(x.items, s, j - 1) \o x.items[j].val.items))>>
+                  \o SubSeq(x.items, j + 1, Len(x.items)))
+       : <<s, j>> \in {p \in (1..Len(x.items)) \X (1..Len(x.items)) : p[1] < p[2] /\ Absorbing(x.items[p[2]])}}
+RECURSIVE LeftShifts(_)
+LeftShifts(x) ==
+    IF ~IsRec(x) THEN {}
+    ELSE TopShifts(x)
+         \cup UNION {{Rec(ReplaceAt(x.attrs, k, Attr(x.attrs[k].name, w)), x.items) : w \in LeftShifts(x.attrs[k].body)} : k \in 1..Len(x.attrs)}
+         \cup UNION {{Rec(x.attrs, ReplaceAt(x.items, k, [x.items[k] EXCEPT !.val = w])) : w \in LeftShifts(x.items[k].val)} : k \in 1..Len(x.items)}
+         \cup UNION {{Rec(x.attrs, ReplaceAt(x.items, k, [x.items[k] EXCEPT !.key = w])) : w \in LeftShifts(x.items[k].key)} : k \in 1..Len(x.items)}
+\* normal forms of the values the comparator confuses with x (together with those that have x among theirs)
+ShiftForms(x) == {NF(w) : w \in LeftShifts(x)}
 
 RECURSIVE HasLeaf(_, _)
 HasLeaf(v, ids) == CASE v.t = "leaf" -> v.id \in ids
